@@ -202,7 +202,7 @@ def ints(l):
 class HistoryGen:
     """draws one valid history; keeps the shadow in step so every op is in bounds"""
 
-    def __init__(self, rng, backend_mode='mixed', types='all', opmix='all', max_ops=14):
+    def __init__(self, rng, backend_mode='mixed', types='all', opmix='all', max_ops=14, allowed=None):
         self.rng = rng
         self.sh = Shadow()
         self.ops = []           # token strings
@@ -213,6 +213,7 @@ class HistoryGen:
         self.opmix = opmix
         self.max_ops = max_ops
         self.kinds = []
+        self.allowed = allowed
 
     def be(self):
         if self.backend_mode == 'mixed':
@@ -278,6 +279,8 @@ class HistoryGen:
                 kinds += ['SLICE'] * 6 + ['SET', 'GET', 'APPLY'] * 3
             if self.opmix == 'bulk':
                 kinds += ['APPLYSLICE', 'COPYFROM', 'RESHAPE', 'UNROLL', 'UNROLLW', 'CONTIG', 'MAX', 'MIN'] * 2
+            if self.allowed is not None:
+                kinds = [x for x in kinds if x in self.allowed]
             k = r.choice(kinds)
             i = self.pick()
             a = sh.arrs[i]
@@ -389,14 +392,18 @@ class HistoryGen:
         return 'ARRH %s %s' % (self.types, ' ; '.join(self.ops))
 
 
-def malformed_history(rng):
+def malformed_history(rng, allowed=None):
     """Go-backed only (out-of-range accesses on C memory would corrupt the harness
     process): a valid prefix followed by one out-of-range / ill-formed operation."""
-    g = HistoryGen(rng, backend_mode='g', max_ops=6).gen()
+    g = HistoryGen(rng, backend_mode='g', max_ops=6, allowed=allowed).gen()
     sh = g.sh
     i = rng.randrange(len(sh.arrs))
     a = sh.arrs[i]
     kind = rng.choice(['GET', 'SET', 'SLICE', 'APPLY', 'RESHAPE0', 'GETLONG', 'SLICESHORT', 'APPLYDIM'])
+    if allowed is not None and kind == 'RESHAPE0' and 'MUSTRESHAPE' not in allowed:
+        kind = 'GET'
+    if allowed is not None and kind == 'SLICE' and 'UNROLL' not in allowed:
+        kind = 'SET'
     big = [d + rng.randint(0, 6) for d in a.shape]
     if kind == 'GET':
         g.ops.append('GET %d L %s' % (i, ints(big)))
